@@ -4,6 +4,8 @@ C08 — colour scales (property theorems; order-only, hence valid for float posi
 Positions are `Fraction` values, which are never NaN (`C05.fraction_range`).
 -/
 import Pastel.Lemmas.Scale
+import Pastel.Lemmas.ScaleMap
+import Pastel.RealInst
 import Pastel.Props.C05
 
 namespace Pastel.C08
@@ -100,6 +102,132 @@ theorem sample_outside (l : List (Stop P C)) (p : P) (mix : C → C → P → C)
         apply List.find?_eq_none.mpr
         intro s hs; simpa using h s hs
       simp [this]
+
+
+/-! ### The scale is the last-write map of its history, independent of insertion order -/
+
+/-- **One `add_stop` is one write**: afterwards the colour at (a position equal to) `p` is `c`
+and every other position keeps its colour. -/
+theorem addStop_is_write (l : List (Stop P C)) (c : C) (p q : P) :
+    lookupStop (addStop l c p) q = if feq q p then some c else lookupStop l q :=
+  lookup_addStop l c p q
+
+/-- The scale built by a history of add-stop operations. -/
+def scaleOf (ops : List (C × P)) : List (Stop P C) :=
+  ops.foldl (fun (l : List (Stop P C)) (o : C × P) => addStop l o.1 (fraction o.2)) []
+
+/-- **Refinement to the abstract map**: after any history, the colour found at a position is the
+one most recently added at that position (`lastWrite`), and nothing where nothing was added. -/
+theorem scale_is_last_write_map (ops : List (C × P)) (q : P) :
+    lookupStop (scaleOf ops) q
+      = lastWrite (fun _ => none) (ops.map (fun o => (o.1, fraction o.2))) q := by
+  unfold scaleOf
+  have := lookup_foldl (ops.map (fun o => (o.1, fraction o.2))) ([] : List (Stop P C)) q
+  rw [List.foldl_map] at this
+  exact this
+
+/-- **Independent of insertion order**: two histories that denote the same last-write map build
+the same scale (same stops, same order) — where IEEE equality of positions is equality. -/
+theorem scale_order_independent (hfe : ∀ a b : P, feq a b = true → a = b) (ops1 ops2 : List (C × P))
+    (h : ∀ q, lastWrite (fun _ => none) (ops1.map (fun o => (o.1, fraction o.2))) q
+            = lastWrite (fun _ => none) (ops2.map (fun o => (o.1, fraction o.2))) q) :
+    scaleOf ops1 = scaleOf ops2 := by
+  have r1 := reachable_sorted ops1
+  have r2 := reachable_sorted ops2
+  apply eq_of_lookup_eq hfe _ _ r1.1 r2.1 r1.2 r2.2
+  intro q
+  have e1 := scale_is_last_write_map ops1 q
+  have e2 := scale_is_last_write_map ops2 q
+  unfold scaleOf at e1 e2
+  rw [e1, e2, h]
+
+/-- At `ℝ`. -/
+theorem real_scale_order_independent {C : Type} (ops1 ops2 : List (C × ℝ))
+    (h : ∀ q, lastWrite (fun _ => none) (ops1.map (fun o => (o.1, fraction o.2))) q
+            = lastWrite (fun _ => none) (ops2.map (fun o => (o.1, fraction o.2))) q) :
+    scaleOf ops1 = scaleOf ops2 :=
+  scale_order_independent (fun a b hab => (real_feq a b).mp hab) ops1 ops2 h
+
+/-! ### Sampling uses exactly the two neighbouring stops -/
+
+/-- In a strictly sorted list the first stop at or above `p` is the least such stop. -/
+theorem find_least (l : List (Stop P C)) (p : P) (b : Stop P C) (hs : SortedStops l)
+    (h : l.find? (fun c => decide (p ≤ c.2)) = some b) : ∀ s ∈ l, p ≤ s.2 → b.2 ≤ s.2 := by
+  obtain ⟨hb, as, bs, hl, hall⟩ := List.find?_eq_some_iff_append.mp h
+  intro s hsl hps
+  rw [hl] at hsl hs
+  rcases List.mem_append.mp hsl with h1 | h1
+  · have := hall s h1; simp [hps] at this
+  · rcases List.mem_cons.mp h1 with rfl | h2
+    · exact le_refl (not_nan_of_le (by simpa using hb)).2
+    · have hp := (List.pairwise_append.mp hs).2.1
+      exact le_of_lt ((List.pairwise_cons.mp hp).1 s h2)
+
+theorem find_greatest (l : List (Stop P C)) (p : P) (a : Stop P C) (hs : SortedStops l)
+    (h : l.reverse.find? (fun c => decide (c.2 ≤ p)) = some a) : ∀ s ∈ l, s.2 ≤ p → s.2 ≤ a.2 := by
+  obtain ⟨ha, as, bs, hl, hall⟩ := List.find?_eq_some_iff_append.mp h
+  intro s hsl hps
+  have hl' : l = bs.reverse ++ a :: as.reverse := by
+    have := congrArg List.reverse hl
+    simpa using this
+  rw [hl'] at hsl hs
+  rcases List.mem_append.mp hsl with h1 | h1
+  · have hp := (List.pairwise_append.mp hs).2.2
+    exact le_of_lt (hp s h1 a (List.mem_cons_self ..))
+  · rcases List.mem_cons.mp h1 with rfl | h2
+    · exact le_refl (not_nan_of_le (by simpa using ha)).1
+    · have := hall s (List.mem_reverse.mp h2); simp [hps] at this
+
+
+/-- **Neighbours**: the two stops that `sample` mixes are the nearest stop at or below the
+position and the nearest stop at or above it. -/
+theorem sample_neighbours (l : List (Stop P C)) (hs : SortedStops l) (p : P) (mix : C → C → P → C) (c : C)
+    (h : sampleScale l p mix = some c) :
+    ∃ a ∈ l, ∃ b ∈ l, a.2 ≤ p ∧ p ≤ b.2 ∧ (∀ s ∈ l, s.2 ≤ p → s.2 ≤ a.2) ∧ (∀ s ∈ l, p ≤ s.2 → b.2 ≤ s.2) ∧
+      c = mix a.1 b.1 (fraction ((p - a.2) / (b.2 - a.2))) := by
+  unfold sampleScale at h
+  split at h
+  · cases h
+  · simp only [] at h
+    split at h
+    · next a b ha hb =>
+      simp only [Option.some.injEq] at h
+      have ha' := List.find?_some ha
+      have hb' := List.find?_some hb
+      have hma : a ∈ l := List.mem_reverse.mp (List.mem_of_find?_eq_some ha)
+      have hmb : b ∈ l := List.mem_of_find?_eq_some hb
+      exact ⟨a, hma, b, hmb, by simpa using ha', by simpa using hb',
+        find_greatest l p a hs ha, find_least l p b hs hb, h.symm⟩
+    · cases h
+
+/-- **At a stop's own position** both neighbours are that stop: the sample is `mix` of the stop's
+colour with itself (which C07 shows to be that colour). -/
+theorem sample_at_stop (l : List (Stop P C)) (hs : SortedStops l) (s : Stop P C) (hsl : s ∈ l)
+    (mix : C → C → P → C) (c : C) (h : sampleScale l s.2 mix = some c) :
+    ∃ f : P, c = mix s.1 s.1 f := by
+  obtain ⟨a, ha, b, hb, h1, h2, h3, h4, hc⟩ := sample_neighbours l hs s.2 mix c h
+  have hn : isNaN s.2 = false := (not_nan_of_le h1).2
+  have eqpos : ∀ x ∈ l, x.2 ≤ s.2 → s.2 ≤ x.2 → x = s := by
+    intro x hx hx1 hx2
+    have hfe := le_antisymm_feq hx1 hx2
+    -- two members of a strictly sorted list with IEEE-equal positions coincide
+    by_contra hne
+    have : x.2 < s.2 ∨ s.2 < x.2 := by
+      have hp := hs
+      unfold SortedStops at hp
+      rcases List.pairwise_iff_getElem.mp hp |> fun _ => (List.Pairwise.forall_of_forall_of_flip
+        (R := fun a b : Stop P C => a ≠ b → (a.2 < b.2 ∨ b.2 < a.2))
+        (by intro a _ h; exact absurd rfl h)
+        (hp.imp (fun h _ => Or.inl h))
+        (hp.imp (fun h _ => Or.inr h))) hx hsl hne with h | h
+      · exact Or.inl h
+      · exact Or.inr h
+    rcases this with h | h
+    · exact not_lt_of_le hx2 h
+    · exact not_lt_of_le hx1 h
+  have ea : a = s := eqpos a ha h1 (h3 s hsl (le_refl hn))
+  have eb : b = s := eqpos b hb (h4 s hsl (le_refl hn)) h2
+  exact ⟨_, by rw [hc, ea, eb]⟩
 
 /-- The same invariant for IEEE float positions. -/
 theorem float_reachable_sorted {C : Type} (ops : List (C × Float)) :
